@@ -420,7 +420,10 @@ class Assembler:
 
             max_alignment = section.alignment.get(main_block, 0)
 
-            for extra_block in extra_blocks:
+            # Folded in from the last to the first, because what an extra
+            # block carries (e.g. CFI directives) is put in front of what the
+            # main block has so far.
+            for extra_block in reversed(extra_blocks):
                 assert isinstance(extra_block, gtirb.CodeBlock)
                 assert not extra_block.size
                 assert extra_block not in self._state.block_types
